@@ -46,8 +46,8 @@ Qed.
 
 (* tie to the source *)
 Theorem c04_generated_conforms :
-  forallb (fun f => env_conforms_role decl_de (gen_env f) (spec_env f)) all_feats = true.
-Proof. exact generated_de_role. Qed.
+  forallb (fun f => request_side_conforms (gen_env f) (spec_env f)) all_feats = true.
+Proof. exact generated_request_side. Qed.
 Theorem c04_generated_route : forall f b, In f all_feats -> 0 <= b < 256 ->
   route_of (gen_tables f) b = spec_route b.
 Proof. exact generated_route. Qed.
